@@ -82,6 +82,15 @@ func (c *FCtx) numberSites(fi *FuncInfo) {
 				c.stmtOrd[x.(ast.Stmt).Pos()] = fmt.Sprintf("stmt %s#%d", text, stmtCount[text])
 			}
 		}
+		// ... and an if statement by its condition: "at before stmt if <cond>[#k]" (before the condition is evaluated)
+		if x, ok := n.(*ast.IfStmt); ok && x.Init == nil {
+			var sb strings.Builder
+			if err := printer.Fprint(&sb, c.W.Fset, x.Cond); err == nil {
+				text := c.baselineText("if " + strings.Join(strings.Fields(sb.String()), " "))
+				stmtCount[text]++
+				c.stmtOrd[x.Pos()] = fmt.Sprintf("stmt %s#%d", text, stmtCount[text])
+			}
+		}
 		return true
 	})
 	// every anchor of the contract must exist in the function (a vanished anchor would silently drop its clauses)
